@@ -108,11 +108,12 @@ package zerolog
 // Buffers (ghost vocabulary: see internal/json/zz_contracts_verif.go)
 
 //@ spec listbuf(b bytes) bool = lex(b) == 0 && stk(b) == STK_EMPTY && ((len(b) == 0 && mode(b) == TOP) || (len(b) > 0 && (mode(b) == DONE || mode(b) == LIST_NEXT)))
-//@ spec eventbuf(b bytes) bool = objbuf(b) && stk(b) == STK_OBJ && b[0] == '{'
-//@ spec ctxbuf(b bytes) bool = objbuf(b) && stk(b) == STK_OBJ && b[0] == '{' && ((len(b) > 1) == (mode(b) == OBJ_NEXT))
+//@ spec eventbuf(b bytes) bool = objbuf(b) && stk(b) == STK_OBJ && firstbyte(b)
+//@ spec ctxbuf(b bytes) bool = objbuf(b) && stk(b) == STK_OBJ && firstbyte(b) && ((len(b) > 1) == (mode(b) == OBJ_NEXT))
 
 // Configuration the properties take as given (C01: time layouts without quote,
 // backslash or control characters; marshal functions present).
+//@ spec cleanlayout(layout string) bool
 //@ config cleanlayout(TimeFieldFormat)
 //@ config LevelFieldMarshalFunc != nil && ErrorMarshalFunc != nil && TimestampFunc != nil && CallerMarshalFunc != nil && InterfaceMarshalFunc != nil
 //@ config DurationFieldUnit != 0
@@ -136,7 +137,7 @@ package zerolog
 //@   flag initialises Event
 //@   flag replay newevent_stale
 //@   ensures res != nil
-//@   ensures lex(res.buf) == 0 && mode(res.buf) == OBJ_FIRST && stk(res.buf) == STK_OBJ && len(res.buf) == 1 && res.buf[0] == '{'
+//@   ensures lex(res.buf) == 0 && mode(res.buf) == OBJ_FIRST && stk(res.buf) == STK_OBJ && len(res.buf) == 1 && firstbyte(res.buf)
 //@   ensures [C03,C05] res.w == w && res.level == level && res.stack == false && res.skipFrame == 0 && len(res.ch) == 0
 
 //@ func Dict() res
@@ -206,27 +207,6 @@ package zerolog
 //@   requires e != nil && objbuf(e.buf)
 //@   ensures objbuf(e.buf) && stk(e.buf) == old(stk(e.buf)) && prefix(e.buf, old(e.buf))
 //@   ensures same(e.buf, old(e.buf)) || (mode(e.buf) == OBJ_NEXT && len(e.buf) > old(len(e.buf)))
-
-// ---------------------------------------------------------------------------
-// encoder_json.go
-
-//@ func appendJSON(dst, j) res
-//@   props C01 C02
-//@   arith int
-//@   flag tags !binary_log
-//@   requires valueok(dst) && wholevalue(j)
-//@   ensures emitsvalue(res, dst)
-
-//@ func appendCBOR(dst, cbor) res
-//@   props C01 C02
-//@   arith int
-//@   flag tags !binary_log
-//@   flag noovf
-//@   flag assumepost base64.StdEncoding.Encode writes exactly EncodedLen(len(cbor)) alphabet bytes over the placeholder dots, so the result is the quoted data URL (trusted library step)
-//@   requires valueok(dst)
-//@   ensures emitsvalue(res, dst)
-//@   loop 1:
-//@     invariant 0 <= i && len(dst) == len(dst0) + 30 + i
 
 // ---------------------------------------------------------------------------
 // event.go / array.go: structured members
